@@ -21,6 +21,18 @@ def bounds(name, tier, argstr):
         return dict(W=2, K=1, cap=40_000)
     return dict(W=3 if nv == 2 else 2, K=2, cap=600_000 if nv == 2 else 300_000)
 
+def explore_plan(tier, frag, idx, astr):
+    "(explore?, deviation bound, execution cap) for the idx-th argument of a task"
+    if frag == 'prop':
+        return False, 0, 0
+    if tier == 'quick':
+        return (idx % 8 == 0 or (astr.count(':') >= 2 and idx % 2 == 0)), 1, 12
+    if idx % 8 == 0:
+        return True, 2, 80
+    if idx % 2 == 0 or astr.count(':') >= 2:
+        return True, 1, 15
+    return False, 0, 0
+
 def plan(name, tier):
     """[(fragment, argstr, explore?)] for one logic"""
     out = []
@@ -32,9 +44,12 @@ def plan(name, tier):
             out.append(('prop', a))
     mod = sweep.modal_args(name, tier)
     fo = sweep.fo_args(name, tier)
-    if tier == 'quick' and slow:
+    if slow:
         mod = sweep.thin(mod, 3)
         fo = sweep.thin(fo, 3)
+    elif tier != 'quick' and LOGICS[name].modal:
+        # the first-order families mostly repeat the non-modal logic's behaviour; FO-modal arguments are kept
+        fo = [a for i, a in enumerate(fo) if i % 2 == 0 or 'M' in a or 'L' in a]
     out += [('modal', a) for a in mod]
     out += [('fo', a) for a in fo]
     return out
@@ -61,9 +76,9 @@ def _task(task):
                 cm_cache.append(cm)
             return cm_cache[0]
         runs = []
-        explore = frag != 'prop' and (tier != 'quick' or idx % 8 == 0 or (astr.count(':') >= 2 and idx % 2 == 0))
+        explore, xbound, xcap = explore_plan(tier, frag, idx, astr)
         if explore:
-            r = tabx.explore(name, arg, bound=bound, max_execs=12 if tier == 'quick' else 300, keep_tab=False, extra_opts=cap)
+            r = tabx.explore(name, arg, bound=xbound, max_execs=xcap, keep_tab=False, extra_opts=cap)
             runs += [('default', x) for x in r['results']]
             out['distinct_hist'] += r['distinct']
             out['capped'] += int(r['capped'])
@@ -71,7 +86,7 @@ def _task(task):
         else:
             runs.append(('default', tabx.execute(name, arg, extra_opts=cap)))
             out['distinct_hist'] += 1
-        optsel = ('nogroup', 'norank', 'neither') if (tier != 'quick' or idx % 8 == 3) else ()
+        optsel = ('nogroup', 'norank', 'neither') if (idx % 8 == 3 if tier == 'quick' else idx % 2 == 1) else ()
         for o in optsel:
             runs.append((o, tabx.execute(name, arg, optname=o, extra_opts=cap)))
         any_valid = False
@@ -123,8 +138,8 @@ def run(ctx):
         evaluations=execs, distinct_nontrivial=sum(r['valid_args'] for r in res),
         rule=('arguments: PROP slice + all MODAL and FO (+FO-modal) arguments of the tier for each of the 57 logics; executions: the default '
               'schedule plus every schedule within the deviation bound (quick: 1 deviation on every eighth argument and on every second argument with >= 2 '
-              'premises, <= 12 executions each; thorough: 2 deviations, <= 300) plus the three non-default option combinations (quick: every eighth '
-              'argument); states = distinct step histories; non-trivial = arguments with at least one valid verdict, each checked by an exhaustive '
+              'premises, <= 12 executions each; thorough: 2 deviations on every eighth argument (<= 80 executions), 1 deviation on every second and on all with >= 2 premises) '
+              'plus the three non-default option combinations (quick: every eighth argument, thorough: every second); states = distinct step histories; non-trivial = arguments with at least one valid verdict, each checked by an exhaustive '
               'reference countermodel search (quick: <= 2 worlds, <= 1 anonymous element; thorough: <= 3 worlds bivalent, <= 2 anonymous)'),
         arguments=sum(r['args'] for r in res), valid_executions=sum(r['valid_execs'] for r in res),
         outcome_classes=outcomes, choice_points_on_default_schedules=sum(r['choice_points'] for r in res),
